@@ -177,7 +177,7 @@ def storable(v):
 
 
 def load_value(p, f, r):
-    return VUnion(z3.Select(farr(p, f), r), desc='%s.%s' % (r, f))
+    return VUnion(z3.Select(farr(p, f), r), desc='.' + f)      # (formatting the reference term here costs milliseconds)
 
 
 def mk_value(kind, term, cls=None):
